@@ -106,7 +106,7 @@ Definition payload_fmt (ty : N) (vi : nat) : fmt :=
   | 97 => list_var 32 H256                                               (* DposV2ClaimRewardRealWithdraw *)
   | 98 => FUnit                                                          (* ExchangeVotes *)
   | 99 => veq 0 (list_var 32 votescontent_fmt)                           (* Voting *)
-          (veq 1 (list_var 72 renewal_fmt) FDropVarUint)
+          (veq 1 (list_var 72 renewal_fmt) FUnit)
   | 101 => list_var 64 (fseq [H256; H168; U64])                          (* VotesRealWithdraw *)
   | 102 => FVarBytes 33                                                  (* RecordSponsor *)
   | 113 => fseq [H256; str; H256; vge 1 (fseq [U32; U32; U64; U64; code_max]) FUnit]  (* CreateNFT *)
